@@ -12,7 +12,8 @@ EXPLANATION = (
     "end barrier; the snapshot precedes every drop loop. R02.3: who may write/clear the tally. R02.4: fences and the "
     "clock read are ordered full_fence<clock<compiler_fence (start) and compiler_fence<clock<full_fence (end). "
     "This decides the ordering clause of the property exactly on the analysed configurations; it does not decide "
-    "that the allow-listed core functions do not allocate (trusted) nor hardware reordering beyond the fences.")
+    "that the allow-listed core functions do not allocate (trusted) nor hardware reordering beyond the fences."
+    " R02.5 ThreadAllocInfo::clear is unconditional and total (whole struct from new(), or every field). R02.6 the overhead subtracted from a sample is computed from that same raw sample's allocation info. R02.7 every measurement a Timer method caches in a static lives in a per-kind array read at self.kind() as usize and is initialised by measuring with the captured timer.")
 NOT_DECIDED = ["that allow-listed core leaf functions do not allocate (trusted)",
                "hardware reordering beyond the stated fences"]
 TRUSTED = ["core::iter / MaybeUninit / UnsafeCell / black_box / mem::forget are allocation-free leaf functions"]
